@@ -77,6 +77,18 @@ def gen(tier, rng):
                                                 for _ in range(k)]}
 
 
+def gen_header_patterns(tier, rng):
+    """records whose 5 header bytes contain 'E','O','F' across the offset / size fields (only the OFFSET 0x454F46 is the EOF marker)"""
+    for copier in (False, True):
+        d = 0x200 if copier else 0
+        for off, n in ((0x00454F, 0x4600), (0x00454F, 0x46AB), (0x120045, 0x4F46), (0x034F46, 5), (0x454F45, 1), (0x004546, 0x4F46)):
+            yield {"copier": copier, "blocks": [(off - d, n, rng.randrange(256))]}
+        yield {"copier": copier, "blocks": [(0x03454F - 0xFFFF - d, 0xFFFF + 0x4612, 7)]}
+        # blocks that END exactly at the top of the 24-bit offset space
+        for n in (1, 2, 0xFFFF, 0x10001):
+            yield {"copier": copier, "blocks": [(0x1000000 - n - d, n, 3)]}
+
+
 def gen_histories(tier, rng):
     """sequences in which a write is REPEATED after an overlapping one (the last write must win), or repeated back to back, or rewritten with other data"""
     for copier in (False, True):
@@ -93,7 +105,7 @@ def gen_histories(tier, rng):
 
 def run(tier, seed):
     rng = random.Random(seed)
-    cases = list(gen(tier, rng)) + list(gen_histories(tier, rng))
+    cases = list(gen(tier, rng)) + list(gen_histories(tier, rng)) + list(gen_header_patterns(tier, rng))
     failures = []
     for c in cases:
         f = check(c)
